@@ -6,8 +6,8 @@
     hcount, charge and equal bond maps;  [amap_id] = atom_map is the node id;  orders are half-units. *)
 From Coq Require Import String.
 From Coq Require Import List NArith ZArith Bool.
-From SK Require Import lib.LGraph lib.C01_GraphLemmas model.C01_Model model.C02_Model model.C01_Opts model.C01_String model.C01_Renum model.C01_Attrs model.C01_CleanWc model.C01_Rsmi model.C01_Nbrs model.C01_Rewrite model.C01_Conv model.C01_G2M
-  proof.C01_Proof proof.C01_OptsProof proof.C01_StringProof proof.C01_StringHyd proof.C01_StringPipe proof.C01_StringEH proof.C01_StringRenum proof.C01_StringHydExt proof.C01_RenumCentre proof.C01_RenumWrite proof.C01_StringEHwf proof.C01_AttrsProof proof.C01_StringPipeH proof.C01_CleanWcProof proof.C01_RsmiProof proof.C01_NbrsProof proof.C01_RewriteProof proof.C01_ConvProof proof.C01_G2MProof proof.C01_WriteExt proof.C01_RewriteCheck.
+From SK Require Import lib.LGraph lib.C01_GraphLemmas model.C01_Model model.C02_Model model.C01_Opts model.C01_String model.C01_Renum model.C01_Attrs model.C01_CleanWc model.C01_Rsmi model.C01_Nbrs model.C01_Rewrite model.C01_Conv model.C01_G2M model.C01_DecRaw model.C01_HBal
+  proof.C01_Proof proof.C01_OptsProof proof.C01_StringProof proof.C01_StringHyd proof.C01_StringPipe proof.C01_StringEH proof.C01_StringRenum proof.C01_StringHydExt proof.C01_RenumCentre proof.C01_RenumWrite proof.C01_StringEHwf proof.C01_AttrsProof proof.C01_StringPipeH proof.C01_CleanWcProof proof.C01_RsmiProof proof.C01_NbrsProof proof.C01_RewriteProof proof.C01_ConvProof proof.C01_G2MProof proof.C01_WriteExt proof.C01_RewriteCheck proof.C01_DecRawProof proof.C01_HBalProof proof.C01_HBalString.
 Import ListNotations.
 Local Open Scope Z_scope.
 
@@ -675,3 +675,54 @@ Theorem C01_rewritten_test_sound : forall (sl : list nat) (m m' : rmol),
   rewrittenb sl m m' = true -> rewritten (s_of sl) m m'.
 Proof. exact rewrittenb_sound. Qed.
 Print Assumptions C01_rewritten_test_sound.
+
+(** 43. its_decompose with EVERY branch (nodes without typesGH are skipped, an empty product tuple skips the product side,
+        edges without order are skipped, add_edge creates attribute-less end nodes that are missing): on a well-formed ITS of
+        the model it is exactly the its_decompose of theorem 1 - no node is created by add_edge and no edge is merged; and the
+        node pass in closed form *)
+Theorem C01_decompose_raw :
+  (forall I : its, wf I ->
+     its_decompose_raw (embed_its I) = (some_nodes (fst (its_decompose I)), some_nodes (snd (its_decompose I)))) /\
+  (forall (I : rits) n (o : option gnode),
+     (In (n, o) (raw_nodes (fun t => Some (fst t)) I) <-> exists g h, In (n, Some (g, h)) (gnodes I) /\ o = Some (dec_node g n)) /\
+     (In (n, o) (raw_nodes snd I) <-> exists g h, In (n, Some (g, Some h)) (gnodes I) /\ o = Some (dec_node h n))).
+Proof. exact (conj decompose_raw_embed raw_nodes_spec). Qed.
+Print Assumptions C01_decompose_raw.
+
+(** 44. implicit_hydrogen (as repaired) conserves the number of hydrogens: with [h_total] = one per hydrogen ATOM + the hcount
+        of every other atom, folding changes nothing - for every well-formed graph in which no hydrogen bridges two
+        non-hydrogen atoms ([one_parent]) and EVERY preserve list; hence each graph its_to_rsmi hands to GraphToMol stands for as many
+        hydrogens as the decomposed graph of that side.  (The defect repaired by /repo 3ba7a77 was a violation of
+        exactly this law: the old rule, [implicit_hydrogen_old] in proof/C01_HBalProof.v, loses a lone proton - witness in
+        C01_hydrogen_balance_nonvacuous: total 3 before, 2 after.) *)
+Theorem C01_hydrogen_balance :
+  (forall (g : mgraph) (pres : list Z), wf g -> one_parent g -> h_total (implicit_hydrogen g pres) = h_total g) /\
+  (forall I : its, wf I ->
+     (one_parent (fst (its_decompose I)) -> h_total (fst (its_to_graphs I)) = h_total (fst (its_decompose I))) /\
+     (one_parent (snd (its_decompose I)) -> h_total (snd (its_to_graphs I)) = h_total (snd (its_decompose I)))).
+Proof. exact (conj hydrogen_balance its_to_graphs_balance). Qed.
+Print Assumptions C01_hydrogen_balance.
+
+(** 45. no hydrogen is lost or created by its_to_rsmi . rsmi_to_its: under the premises of theorem 32 (RDKit contract P1-P4, W0)
+        and for sides without bridging hydrogens, each side of the written string reads back as a graph standing for exactly as
+        many hydrogens (hydrogen atoms + hcounts) as the corresponding side of the input - explicit mapped hydrogens, reacting
+        or not, lone or bonded, included *)
+Theorem C01_string_hydrogen_balance : forall (rd_read : bool -> String.string -> option rmol)
+    (rd_write : bool -> wmol -> option String.string) (ok : mgraph -> Prop),
+  (forall w s, rd_write true w = Some s -> has_gt s = false) ->
+  ((forall s m, rd_read true s = Some m -> ok (graph_of m)) /\
+   (forall g g', ok g ->
+      ((forall n, option_map sel5 (label g' n) = option_map sel5 (label g n)) /\ (forall u v, adj g' u v = adj g u v)) -> ok g') /\
+   (forall g pres, ok g -> wf g -> ok (implicit_hydrogen g pres)) /\
+   (forall g w s, ok g -> wf g -> amap_id g -> graph_to_wmol g = Some w -> rd_write true w = Some s ->
+      exists m, rd_read true s = Some m /\ (NoDup (map fst (mapped_nodes m)) /\ simple (mapped_bonds m)) /\ geq_sel (graph_of m) g)) ->
+  forall s r p mr mp, rsmi_parts s = Some (r, p) -> rd_read true r = Some mr -> rd_read true p = Some mp ->
+  (NoDup (map fst (mapped_nodes mr)) /\ simple (mapped_bonds mr)) ->
+  (NoDup (map fst (mapped_nodes mp)) /\ simple (mapped_bonds mp)) ->
+  let G := graph_of mr in let H := graph_of mp in
+  wf G -> wf H -> same_nodes G H -> orders_pos G -> orders_pos H -> one_parent G -> one_parent H ->
+  forall J s', rsmi_to_its_str rd_read default_ropts s = Ok J -> its_to_rsmi_str rd_write true false false J = Ok s' ->
+  exists r' p' mr' mp', rsmi_parts s' = Some (r', p') /\ rd_read true r' = Some mr' /\ rd_read true p' = Some mp' /\
+    h_total (graph_of mr') = h_total G /\ h_total (graph_of mp') = h_total H.
+Proof. exact string_hydrogen_balance. Qed.
+Print Assumptions C01_string_hydrogen_balance.
